@@ -18,6 +18,8 @@ def term_to_py(v):
             return False
         if z3.is_string_value(v):
             return decode_z3_string(v.as_string())
+        if v.sort().kind() == z3.Z3_DATATYPE_SORT:
+            return {"ctor": v.decl().name(), "args": [term_to_py(a) for a in v.children()]}
         if z3.is_seq(v):
             # sequence literal: concat of units / empty
             out = []
